@@ -196,6 +196,7 @@ struct InclEngine : Engine {
 			std::string search = "/sim/w";       // what a child sees as folder unless a base overrides it: the parent's folder; spell relative to the top's search dir
 			std::string t;
 			std::string basedir = search;
+			bool prose_meta = false;
 			if (w.chance(1, 3) || (use_base && w.chance(1, 2))) {
 				t += "Title: file " + std::string(1, (char)('a' + i)) + "\n";
 				if (use_base && w.chance(2, 3)) {
@@ -207,6 +208,12 @@ struct InclEngine : Engine {
 				}
 				if (w.chance(1, 3)) t += "Author: someone\n";
 				t += "\n";
+			} else if (w.chance(1, 5)) {
+				// no metadata, but a first line that the cheap metadata-line scan accepts: a URL, a key without a value -
+				// or prose with a colon, which by the syntax's own rule IS metadata (the oracle asks the library where it ends)
+				static const char * look[] = {"http://example.com/manual is the reference\n", "Summary:\n", "Note: prose with a colon\n", "https://example.org/x\n"};
+				t += look[w.below(4)];
+				prose_meta = t.compare(0, 5, "Note:") == 0;
 			}
 			int nm = (int)w.range(0, 4);
 			if ((size_t)nm > maxmarkers) maxmarkers = (size_t)nm;
@@ -238,7 +245,7 @@ struct InclEngine : Engine {
 				t += "\n";
 				if (l > 12) break;
 			}
-			if (w.chance(1, 10)) {
+			if (w.chance(1, 10) && !prose_meta) {      // (a whole file that is one metadata block costs far more basic blocks per byte than the step cap allows for)
 				// sizes around scan_file's 4096-byte read chunk (exact multiples and their neighbours)
 				static const size_t targets[] = {4095, 4096, 4097, 8192, 8191, 12288};
 				size_t target = targets[w.below(6)];
